@@ -2,6 +2,7 @@
 import BB.Model.Instrs
 import BB.Model.NumEval
 import BB.Model.NumMod
+import BB.Model.NumModTree
 
 namespace BB.Driver.OpsPy
 
@@ -101,9 +102,21 @@ def numeval (text : String) : String :=
       let f := match evalFloor a with | some v => showBig v | none => "none"
       s!"{kind a} strict={s} floor={f} bits<={b}"
 
+/-- `nummod <m> | <a>` : the model of the whole `%` operator (BB/Model/NumModTree.lean `modE`;
+    theorems BB/Props/C18.lean): the residue, or `raise` where the Python raises -/
+def nummod (m : String) (text : String) : String :=
+  match parse text, m.toNat? with
+  | some a, some mv =>
+    match BB.NumModTree.modE a mv with
+    | some r => toString r
+    | none => "raise"
+  | none, _ => "unparseable"
+  | _, none => "badmodulus"
+
 def handle (op : String) (args : List String) (text : String) : Option String :=
   match op, args with
   | "numcheck", [o, _m] => some (numcheck o text)
+  | "nummod", [m] => some (nummod m text)
   | "numeval", [] => some (numeval text)
   | "expmod", [b, e, m] =>
     -- the model of `Exp(base, exp).__mod__(mod)` (BB/Model/NumMod.lean; theorems BB/Props/C18.lean)
